@@ -17,6 +17,16 @@ Decided (necessary conditions):
       every outcome of the release check that declines because the marker is younger than idle_timeout starts another timer
       that does.  "Skip when a sleeper for the run already exists" without re-arming on decline leaves the second idle period
       of a run (idle -> event -> idle) without any timer that looks at it after its own idle_timeout.
+  R5  typestate of the run_lifecycle row (journal/lifecycle.py, every RunLifecycleLock implementation): the row is the only thing
+      that tells a replica whether a run is live (`active`) or must be reloaded (`released`), so every statement that writes its
+      `state` column *names the state(s) it leaves*: an UPDATE either carries `AND state = <placeholder>` whose bind parameter
+      is a RunLifecycleState member, or sits in a read-modify-write whose guards on the decoded row state admit a strict subset of
+      the states; every (source -> target) pair so obtained is an edge of active -> releasing -> released -> active (+ the
+      crash-timeout takeover releasing -> active); an INSERT registers `active`; every edge of the cycle has a statement; and the
+      implementations agree method by method (sibling cross-check).  `complete_release` without its `state = releasing`
+      conjunct is an unconditional write of `released`: a releaser that stalled past the crash timeout and finishes after the
+      run was force-resumed elsewhere overwrites the live run's `active` row, and the next event purges the live run's workflow
+      and journal and starts a second run under the same run id (the reloaded run does not continue from where it stopped).
 
 Not decided: that the reloaded run continues exactly where it stopped (C12 / C13 / C14), real elapsed time, DBOS and
 database semantics, what happens to timers of the released run.
@@ -26,10 +36,10 @@ from __future__ import annotations
 
 import ast
 
-from ..astx import atoms, call_name, dotted, enclosing_stmt, expand, facts_at, kwarg, last, reaching_def
+from ..astx import atoms, call_name, dotted, enclosing_stmt, expand, facts_at, facts_given, kwarg, last, reaching_def
 from ..cfg import CFG, exprs_in_node
 from ..index import AnchorError, FuncNode, enclosing_function, qualname_of, walk_shallow
-from ..selftest import Twin
+from ..selftest import Twin, multi
 from .c26 import (  # shared helpers live in c26.py (the brief forbids new shared files under sa/)
     DBI,
     LIFE,
@@ -37,11 +47,13 @@ from .c26 import (  # shared helpers live in c26.py (the brief forbids new share
     _decorator_and_adapter,
     _forward_sends,
     abstract_methods,
+    enum_members,
     fn_params,
     lifecycle_impls,
     method,
     need_method,
     sql_statements,
+    state_member,
     strip_await,
 )
 
@@ -64,12 +76,20 @@ EXPLANATION = (
     "method of the decorator that always reaches the release check.  DBOS has no age test in its release check (the timer is cancelled and re-armed per tick), so only (a)+(b) apply. "
     "Not decided by R4: that the re-armed timer sleeps long enough (R2/R3 bind the first sleep), early returns that could be justified by a proof that a newer live timer exists (reported), "
     "whether `_schedule_deferred_release` may keep a live older timer (harmless on DBOS because every received tick cancels it). "
+    "R5 (typestate of the run_lifecycle row, every RunLifecycleLock implementation): the SQL of every method is read; each statement that writes the `state` column is a "
+    "transition.  For an UPDATE the source states are (a) the RunLifecycleState member bound to the placeholder of the `AND state = <placeholder>` conjunct of its WHERE clause "
+    "(a placeholder without a matching bind parameter, or one bound to something that is not a member, names nothing), or (b) when the WHERE clause has no state conjunct, the set "
+    "of members for which the statement is reachable, by case analysis of the function's guards over the state decoded from a SELECT of the same run id in the same function.  "
+    "Obligations: every UPDATE names a non-empty strict subset of the states and is keyed by the method's run id parameter; every (source -> target) pair is an edge of "
+    "active -> releasing -> released -> active or the takeover releasing -> active (so `active`, the live state, is left only towards `releasing`); every INSERT registers `active`; "
+    "every edge of the cycle is written by some statement of each implementation; the implementations' transition tables agree method by method.  "
+    "Not decided by R5: atomicity of the read-modify-write and the crash-timeout condition of the takeover (C26.R4), that callers call the transitions in order (R1/R3), SQL engine semantics. "
     "Not decided: equality of the resumed execution (C12-C14), timer accuracy, DBOS / database semantics."
 )
 TRUSTED = ["CPython ast", "asyncio.sleep / task scheduling", "DBOS workflow completion", "SQL semantics of INSERT / UPDATE … WHERE"]
-LEVEL_TEXT = "static necessary-condition rules (typestate of the lifecycle row, caller liveness of the lifecycle API, CFG ordering)"
+LEVEL_TEXT = "static necessary-condition rules (typestate of the lifecycle row incl. source-state-named transitions, caller liveness of the lifecycle API, CFG ordering)"
 LEVEL_NOTE = "A pass means the release / reload paths are wired in the required order; it does not show that the reloaded run continues correctly (C12-C14) or that timers are accurate."
-TECHNIQUE = "ast + call graph inside the idle-release modules + CFG dominance / must-pass + small SQL reader"
+TECHNIQUE = "ast + call graph inside the idle-release modules + CFG dominance / must-pass + small SQL reader + case analysis of guards over the lifecycle enum"
 
 
 # ======================================================================================= helpers
@@ -682,6 +702,237 @@ def rule_r3(chk) -> None:
     chk.floor("C36.R3", "DBOS release / resume sites", n_sites, 8)
 
 
+# ======================================================================================= R5 (typestate of the run_lifecycle row)
+
+_INITIAL = "active"
+_CYCLE = (("active", "releasing"), ("releasing", "released"), ("released", "active"))
+_EDGES = {
+    ("active", "releasing"): "release begun by the idle timer",
+    ("releasing", "released"): "release completed by the releaser",
+    ("released", "active"): "reload on demand",
+    ("releasing", "active"): "crash-timeout takeover of a release that never completed",
+}
+_CLOBBER = {
+    ("active", "released"): "a run that is live (`active`, e.g. force-resumed on another replica after the crash timeout) is recorded as `released`: the next event deletes the "
+                            "live run's workflow and journal and starts a second run under the same run id instead of delivering to it",
+    ("active", "active"): "an `active` (live) run is claimed again: the caller is told it owns a resume and starts a second control loop for a run that never stopped",
+    ("released", "releasing"): "a run that is already out of memory is put back to `releasing` with nobody left to complete it: events wait for the crash timeout",
+    ("released", "released"): "the write no longer distinguishes a release it completed from one somebody else completed or took over",
+    ("releasing", "releasing"): "a release that is already in progress is begun again by a second releaser",
+    ("active", "releasing"): "",
+}
+_STOP = ("RETURNING", "ORDER", "FOR", "LIMIT", "GROUP", "ON", "VALUES")
+
+
+class _Write:
+    """One statement that writes the `state` column of the lifecycle row."""
+
+    def __init__(self, meth: str, fn: ast.AST, sql, kind: str, target: str | None):
+        self.meth, self.fn, self.sql, self.kind, self.target = meth, fn, sql, kind, target
+        self.sources: frozenset | None = None  # None: names no source state
+        self.how = ""  # "where" | "guard"
+        self.why = ""
+        self.keyed = True
+
+    def edges(self) -> frozenset:
+        return frozenset((s_, self.target) for s_ in self.sources) if self.sources is not None else frozenset({("*", self.target)})
+
+
+def _where_tokens(sql) -> list[str]:
+    up = sql.upper()
+    if "WHERE" not in up:
+        return []
+    out = []
+    for t in up[up.index("WHERE") + 1:]:
+        if t in _STOP:
+            break
+        out.append(t)
+    return out
+
+
+def _row_state_subject(fn: ast.AST, ename: str, runid: str, sqls: list, before: ast.AST) -> str | None:
+    """Local that holds `<Enum>(row[...])` where `row` is the result of a SELECT of this run id in `fn`."""
+    selects = [q for q in sqls if q.verb == "SELECT"]
+    for x in ast.walk(fn):
+        if not (isinstance(x, ast.Assign) and len(x.targets) == 1 and isinstance(x.targets[0], ast.Name) and isinstance(x.value, ast.Call) and last(call_name(x.value)) == ename):
+            continue
+        for nm in [n for a in x.value.args for n in ast.walk(a) if isinstance(n, ast.Name)]:
+            d = reaching_def(nm.id, x)
+            if d is None:
+                continue
+            for q in selects:
+                if any(c is q.call for c in ast.walk(d)):
+                    _s, w = q.assignments()
+                    rid = w.get("run_id")
+                    if isinstance(rid, ast.Name) and rid.id == runid:
+                        return x.targets[0].id
+    return None
+
+
+def _state_writes(cls: ast.ClassDef, ename: str, members: dict, rule: str = "C36.R5", mod=None) -> list[_Write]:
+    """Every statement of the methods of `cls` that writes the `state` column, with the source states it names."""
+    out: list[_Write] = []
+    for f in cls.body:
+        if not isinstance(f, FuncNode) or f.name == "__init__":
+            continue
+        sqls = sql_statements(f)
+        params = fn_params(f)
+        runid = params[1] if len(params) > 1 else None
+        for q in sqls:
+            if q.verb == "INSERT":
+                vals = q.insert_values()
+                sets, _w = q.assignments()  # ON CONFLICT … DO UPDATE SET …
+                for v in [d["state"] for d in (vals, sets) if "state" in d]:
+                    w = _Write(f.name, f, q, "insert", state_member(v, ename, members, q.call))
+                    if w.target is None:
+                        raise AnchorError(f"{rule}: `{cls.name}.{f.name}` inserts a lifecycle row whose state is not a {ename} member the reader can resolve")
+                    out.append(w)
+                continue
+            if q.verb != "UPDATE":
+                continue
+            sets, where = q.assignments()
+            if "state" not in sets:
+                continue
+            w = _Write(f.name, f, q, "update", state_member(sets["state"], ename, members, q.call))
+            if w.target is None:
+                raise AnchorError(f"{rule}: `{cls.name}.{f.name}` sets the lifecycle state to something that is not a {ename} member the reader can resolve")
+            rid = where.get("run_id")
+            if isinstance(rid, ast.Name) and rid.id != runid:
+                d = reaching_def(rid.id, q.call)
+                rid = d if isinstance(d, ast.Name) else rid
+            w.keyed = isinstance(rid, ast.Name) and rid.id == runid
+            wt = _where_tokens(q)
+            if "OR" in wt:
+                raise AnchorError(f"{rule}: `{cls.name}.{f.name}`: WHERE clause with OR is not understood by the SQL reader")
+            has_read = any(x.verb == "SELECT" for x in sqls)
+            subj = _row_state_subject(f, ename, runid or "", sqls, q.call) if has_read else None
+            by_guard = False
+            if "state" in where:
+                mem = state_member(where["state"], ename, members, q.call)
+                shown = where["state"]
+                bound = dotted(shown) if isinstance(shown, ast.AST) else None
+                shown = ast.unparse(shown) if isinstance(shown, ast.AST) else shown
+                if mem is not None:
+                    w.sources, w.how = frozenset({mem}), "where"
+                elif subj is not None and bound in (subj, f"{subj}.value"):
+                    by_guard = True  # optimistic compare-and-set on the state just read: the guards say which states those are
+                else:
+                    w.why = (f"the placeholder of `state = {shown}` has no matching bind parameter that is a {ename} member" if isinstance(shown, str) and (shown.startswith("$") or shown == "?")
+                             else f"`state = {shown}` in WHERE is not a {ename} member")
+            elif any(t.split(".")[-1] == "STATE" for t in wt):
+                raise AnchorError(f"{rule}: `{cls.name}.{f.name}`: WHERE mentions `state` in a form other than `state = <value>`")
+            else:
+                by_guard = True
+            if by_guard:
+                if has_read and subj is None:
+                    raise AnchorError(f"{rule}: `{cls.name}.{f.name}` reads the row but does not decode its state into a {ename} local (cannot tell from which states it writes `{w.target}`)")
+                if subj is None:
+                    w.why = f"the UPDATE has no `AND state = <expected>` conjunct (and no bind parameter for one) and the method does not read the row first: the write of `{w.target}` is unconditional"
+                else:
+                    cfg = CFG(f)
+                    domain = [f"{ename}.{k}" for k in members]
+                    reach = {k for k in members for n in cfg.nodes_of(enclosing_stmt(q.call)) if facts_given(cfg, n, subj, f"{ename}.{k}", domain, mod=mod)[0]}
+                    if reach == set(members):
+                        w.why = f"the UPDATE is reachable whatever the decoded row state `{subj}` is and its WHERE clause names no {ename} member: the write of `{w.target}` is unconditional"
+                    elif not reach:
+                        w.why = f"the UPDATE is unreachable for every value of the decoded row state `{subj}`"
+                    else:
+                        w.sources, w.how = frozenset(reach), "guard"
+            out.append(w)
+    return out
+
+
+def _fmt_edges(ws: list[_Write]) -> str:
+    return ", ".join(sorted(f"{'|'.join(sorted(w.sources)) if w.sources is not None else '<any>'} -> {w.target}" + (" (insert)" if w.kind == "insert" else "") for w in ws)) or "no state write"
+
+
+def rule_r5(chk) -> None:
+    repo = chk.repo
+    m0, base, impls, ename, members = lifecycle_impls(repo)
+    chk.floor("C36.R5", "RunLifecycleLock implementations", len(impls), 2)
+    n_upd = n_ins = n_where = n_guard = 0
+    tables: dict[str, dict[str, list[_Write]]] = {}
+    seen_ins: set[int] = set()
+    for _ref, m, cls in impls:
+        ws = _state_writes(cls, ename, members, mod=m)
+        tables[cls.name] = {}
+        for w in ws:
+            tables[cls.name].setdefault(w.meth, []).append(w)
+            if w.kind == "insert":
+                n_ins += id(w.sql) not in seen_ins
+                seen_ins.add(id(w.sql))
+                chk.ob("C36.R5", f"{cls.name}.{w.meth}: a row is registered as `{_INITIAL}` (a run that has just started is live)", w.target == _INITIAL, m=m, node=w.sql.call, fn=w.fn,
+                       instance=f"register:{w.meth}", reason=f"the INSERT writes `{w.target}`: the first event sent to the new run is treated as a send to a run that is not live")
+                continue
+            n_upd += 1
+            n_where += w.how == "where"
+            n_guard += w.how == "guard"
+            if w.sources is None:
+                bad = [(s_, w.target) for s_ in members if (s_, w.target) not in _EDGES]
+                reason = w.why
+            else:
+                bad = [(s_, w.target) for s_ in sorted(w.sources) if (s_, w.target) not in _EDGES]
+                reason = f"names source state(s) {sorted(w.sources)} ({'WHERE bind parameter' if w.how == 'where' else 'guards on the decoded row state'}), but " \
+                         f"{', '.join(f'`{a} -> {b}`' for a, b in bad)} is not a transition of active -> releasing -> released -> active (+ takeover releasing -> active)" if bad else ""
+            if w.sources is None and bad:
+                cons = [f"`{a} -> {b}`: {_CLOBBER.get((a, b)) or 'not a transition of the lifecycle'}" for a, b in bad]
+                reason += "; rows it now also overwrites: " + "; ".join(cons)
+            if not w.keyed:
+                reason = (reason + "; " if reason else "") + "WHERE run_id is not bound to the method's run id parameter"
+            chk.ob("C36.R5", f"{cls.name}.{w.meth}: the write of `{w.target}` names the state(s) it leaves (compare-and-set on the lifecycle row) and they are legal predecessors of `{w.target}`",
+                   w.sources is not None and not bad and w.keyed, m=m, node=w.sql.call, fn=w.fn, instance=f"source-state:{w.meth}->{w.target}", reason=reason)
+        # every edge of the cycle is written by some statement (an unnamed source is reported above and counts as covering)
+        ups = [w for w in ws if w.kind == "update"]
+        for a, b in _CYCLE:
+            cov = any(w.target == b and (w.sources is None or a in w.sources) for w in ups)
+            chk.ob("C36.R5", f"{cls.name}: some statement moves a row `{a}` -> `{b}` ({_EDGES[(a, b)]})", cov, m=m, node=cls, fn=None, instance=f"edge:{cls.name}:{a}->{b}",
+                   reason=f"no UPDATE of {cls.name} leaves `{a}` for `{b}` (transitions found: {_fmt_edges(ws)}): rows stay `{a}` for ever, "
+                          + {"releasing": "idle runs are never released", "released": "events sent to a released run wait on `releasing` until the crash timeout", "active": "a released run is never reloaded"}[b])
+    # sibling cross-check: the implementations realise the same state machine, method by method
+    names = sorted({k for t in tables.values() for k in t} | {a for a in abstract_methods(base) if any(a in t for t in tables.values())})
+    first_cls = impls[0][2]
+    n_sib = 0
+    for meth in names:
+        n_sib += 1
+        sigs = {cn: frozenset((w.kind, e) for w in t.get(meth, []) for e in w.edges()) for cn, t in tables.items()}
+        same = len(set(sigs.values())) == 1
+        odd = next((c for _r, _m, c in impls if sigs[c.name] != sigs[first_cls.name]), first_cls)
+        odd_m = next(mm for _r, mm, c in impls if c is odd)
+        node = method(odd, meth) or odd
+        chk.ob("C36.R5", f"all RunLifecycleLock implementations realise the same transitions in `{meth}`", same, m=odd_m, node=node, fn=node if isinstance(node, FuncNode) else None,
+               instance=f"siblings:{meth}",
+               reason="; ".join(f"{cn}.{meth}: {_fmt_edges(t.get(meth, []))}" for cn, t in tables.items()) + " -- a deployment on one backend releases / reloads runs under a different state machine than the other")
+    chk.floor("C36.R5", "UPDATE statements that write the lifecycle state (begin_release, complete_release, try_begin_resume x 2 backends)", n_upd, 6)
+    chk.observe(f"C36.R5: of the {n_upd} lifecycle UPDATEs, {n_where} name their source state in the WHERE clause (bind parameter / literal) and {n_guard} through guards on the decoded row state "
+                "(confirmed by reading: 4 and 2)")
+    chk.floor("C36.R5", "INSERT statements that register a row (create x 2 backends)", n_ins, 2)
+    chk.floor("C36.R5", "methods cross-checked between the implementations", n_sib, 4)
+
+
+FIXTURE_R5 = "fixtures/c36/unconditional_transition.py"
+
+
+def _fixture_r5(chk) -> None:
+    """The source-state reader is exercised on a planted lock on every run: an unconditional completion, a placeholder whose
+    bind parameter is gone, a guard that admits every state -- and a correct compare-and-set that must be read as named."""
+    from ..index import _set_parents
+    from ..report import VERIF
+
+    p = VERIF / FIXTURE_R5
+    if not p.is_file():
+        raise AnchorError(f"fixture {FIXTURE_R5} missing")
+    tree = ast.parse(p.read_text())
+    _set_parents(tree)
+    enum = next(n for n in tree.body if isinstance(n, ast.ClassDef) and n.name == "RunLifecycleState")
+    cls = next(n for n in tree.body if isinstance(n, ast.ClassDef) and n.name == "PlantedLifecycleLock")
+    ws = {w.meth: w for w in _state_writes(cls, "RunLifecycleState", enum_members(enum), rule="C36.fixture")}
+    bad = sum(ws[k].sources is None for k in ("complete_release_unconditional", "complete_release_unbound", "resume_any_state") if k in ws)
+    good = sum(k in ws and ws[k].sources == frozenset(v) for k, v in (("begin_release", {"active"}), ("resume_guarded", {"released", "releasing"})))
+    wrong = "complete_release_from_active" in ws and ws["complete_release_from_active"].sources == frozenset({"active"}) and ("active", "released") not in _EDGES
+    chk.floor("C36.fixture", "planted lifecycle writes that name no source state recognised (no state conjunct, placeholder without bind parameter, guard admitting every state)", bad, 3)
+    chk.floor("C36.fixture", "planted correct compare-and-set / guarded claim read as naming their source states; planted `active -> released` read as an illegal edge", good + int(wrong), 3)
+
+
 def run(chk) -> None:
     from ._engine import engine_view
     chk.extra["helpers_inlined"] = engine_view(chk.repo)
@@ -689,6 +940,8 @@ def run(chk) -> None:
     rule_r2(chk)
     rule_r3(chk)
     rule_r4(chk)
+    rule_r5(chk)
+    _fixture_r5(chk)
 
 
 # ======================================================================================= twins
@@ -710,6 +963,16 @@ _DECLINE = "            if elapsed < self._idle_timeout:\n                return
 _DR_TO_DECLINE = (_DR_OLD + "\n    async def _release_idle_handler(self, run_id: str) -> None:\n        \"\"\"Release an idle handler from memory.\"\"\"\n        async with self._reload_lock(run_id):\n"
                   "            handlers = await self._store.query(HandlerQuery(run_id_in=[run_id]))\n            if len(handlers) != 1 or handlers[0].idle_since is None:\n                return\n"
                   "            elapsed = (\n                datetime.now(timezone.utc) - handlers[0].idle_since\n            ).total_seconds()\n" + _DECLINE)
+
+_PG_COMPLETE = ('f"WHERE run_id = $3 AND state = $4",\n            RunLifecycleState.released.value,\n            datetime.now(timezone.utc),\n            run_id,\n'
+                "            RunLifecycleState.releasing.value,\n        )")
+_PG_COMPLETE_UNCOND = 'f"WHERE run_id = $3",\n            RunLifecycleState.released.value,\n            datetime.now(timezone.utc),\n            run_id,\n        )'
+_SQ_COMPLETE = ('f"WHERE run_id = ? AND state = ?",\n                    (\n                        RunLifecycleState.released.value,\n                        datetime.now(timezone.utc).isoformat(),\n'
+                "                        run_id,\n                        RunLifecycleState.releasing.value,\n                    ),")
+_SQ_COMPLETE_UNCOND = ('f"WHERE run_id = ?",\n                    (\n                        RunLifecycleState.released.value,\n                        datetime.now(timezone.utc).isoformat(),\n'
+                       "                        run_id,\n                    ),")
+_SQ_CLAIM_TEST = ("                if state == RunLifecycleState.released or (\n                    state == RunLifecycleState.releasing\n                    and crash_timeout_seconds is not None\n"
+                  "                    and (\n                        datetime.now(timezone.utc)\n")
 
 TWINS = [
     # ---- R1
@@ -793,4 +1056,34 @@ TWINS = [
     Twin("R3 benign: positive CAS gate", _DBI, "        if not await lifecycle.begin_release(run_id):\n            return\n\n        external = self._decorated.get_external_adapter(run_id)\n        await external.send_event(TickIdleRelease())\n        logger.info(f\"Released idle DBOS handler [run_id={run_id}]\")\n\n        self._spawn_task(self._await_and_mark_released(run_id, external))\n",
          "        if await lifecycle.begin_release(run_id):\n            external = self._decorated.get_external_adapter(run_id)\n            await external.send_event(TickIdleRelease())\n            logger.info(f\"Released idle DBOS handler [run_id={run_id}]\")\n            self._spawn_task(self._await_and_mark_released(run_id, external))\n", None),
     Twin("R3 benign: positional pending tick", _DBI, "                await self._runtime._do_resume(self.run_id, pending_tick=tick)\n", "                await self._runtime._do_resume(self.run_id, tick)\n", None),
+    # ---- R5 (typestate of the run_lifecycle row)
+    Twin("R5 seed form (S143): complete_release of both backends loses `AND state = releasing` and its bind parameter", _LIFE,
+         *multi(_LIFE, [(_PG_COMPLETE, _PG_COMPLETE_UNCOND), (_SQ_COMPLETE, _SQ_COMPLETE_UNCOND)]), "C36.R5"),
+    Twin("R5 variant: only the postgres completion is unconditional (the backends disagree)", _LIFE, _PG_COMPLETE, _PG_COMPLETE_UNCOND, "C36.R5"),
+    Twin("R5 variant: only the sqlite completion is unconditional", _LIFE, _SQ_COMPLETE, _SQ_COMPLETE_UNCOND, "C36.R5"),
+    Twin("R5 variant: completion names the wrong source state (active -> released)", _LIFE, _SQ_COMPLETE,
+         _SQ_COMPLETE.replace("run_id,\n                        RunLifecycleState.releasing.value,", "run_id,\n                        RunLifecycleState.active.value,"), "C36.R5"),
+    Twin("R5 variant: begin_release unconditional (a released run is put back to releasing)", _LIFE,
+         'f"WHERE run_id = $3 AND state = $4 RETURNING run_id",\n            RunLifecycleState.releasing.value,\n            datetime.now(timezone.utc),\n            run_id,\n            RunLifecycleState.active.value,\n',
+         'f"WHERE run_id = $3 RETURNING run_id",\n            RunLifecycleState.releasing.value,\n            datetime.now(timezone.utc),\n            run_id,\n', "C36.R5"),
+    Twin("R5 variant: the resume claim is also reachable for an `active` row (sqlite)", _LIFE,
+         "                if state == RunLifecycleState.active:\n                    return None\n" + _SQ_CLAIM_TEST,
+         _SQ_CLAIM_TEST.replace("if state == RunLifecycleState.released or (", "if state != RunLifecycleState.releasing or ("), "C36.R5"),
+    Twin("R5 sibling variant: sqlite never takes over a stalled release (a crashed releaser leaves the run unreloadable on that backend)", _LIFE,
+         _SQ_CLAIM_TEST + "                        - datetime.fromisoformat(row[\"updated_at\"])\n                    ).total_seconds()\n                    > crash_timeout_seconds\n                ):\n",
+         "                if state == RunLifecycleState.released:\n", "C36.R5"),
+    Twin("R5 variant: a new run is registered as released", _LIFE,
+         "run_id,\n                        RunLifecycleState.active.value,\n                        datetime.now(timezone.utc).isoformat(),",
+         "run_id,\n                        RunLifecycleState.released.value,\n                        datetime.now(timezone.utc).isoformat(),", "C36.R5"),
+    Twin("R5 benign: conjuncts of the completion swapped (same placeholders)", _LIFE, 'f"WHERE run_id = $3 AND state = $4",', 'f"WHERE state = $4 AND run_id = $3",', None),
+    Twin("R5 benign: source state written as an SQL literal instead of a bind parameter", _LIFE, _PG_COMPLETE,
+         'f"WHERE run_id = $3 AND state = \'releasing\'",\n            RunLifecycleState.released.value,\n            datetime.now(timezone.utc),\n            run_id,\n        )', None),
+    Twin("R5 benign: expected state held in a local, conjuncts and binds reordered (sqlite)", _LIFE,
+         "                conn.execute(\n                    f\"UPDATE {self._table_ref} SET state = ?, updated_at = ? \"\n                    " + _SQ_COMPLETE,
+         "                expected = RunLifecycleState.releasing.value\n                conn.execute(\n                    f\"UPDATE {self._table_ref} SET state = ?, updated_at = ? \"\n                    "
+         "f\"WHERE state = ? AND run_id = ?\",\n                    (\n                        RunLifecycleState.released.value,\n                        datetime.now(timezone.utc).isoformat(),\n"
+         "                        expected,\n                        run_id,\n                    ),", None),
+    Twin("R5 benign: the resume claim is additionally a compare-and-set on the state it has just read (sqlite)", _LIFE,
+         "SET state = ?, updated_at = ? WHERE run_id = ?\",\n                        (\n                            RunLifecycleState.active.value,\n                            datetime.now(timezone.utc).isoformat(),\n                            run_id,\n",
+         "SET state = ?, updated_at = ? WHERE run_id = ? AND state = ?\",\n                        (\n                            RunLifecycleState.active.value,\n                            datetime.now(timezone.utc).isoformat(),\n                            run_id,\n                            state.value,\n", None),
 ]
